@@ -208,10 +208,20 @@ func check(c Case) (pbt.Info, error) {
 func gen(kind string) func(t *rapid.T) Case { return genWith(kind, false) }
 
 func genWith(kind string, float bool) func(t *rapid.T) Case {
+	if float {
+		return genElem(kind, "float")
+	}
+	return genElem(kind, "")
+}
+
+func genElem(kind, elem string) func(t *rapid.T) Case {
 	return func(t *rapid.T) Case {
 		c := Case{Cfg: refl.GenCfg(t, kind)}
-		if float {
+		switch elem {
+		case "float":
 			c.Cfg = refl.GenCfgFloat(t, kind)
+		case "any", "uint8":
+			c.Cfg = refl.GenCfgElem(t, kind, elem)
 		}
 		methods := refl.Methods(c.Cfg)
 		// mutators are listed twice more so that histories build real content
@@ -253,5 +263,14 @@ func TestGenerated(t *testing.T) {
 	// elements that are not equal to themselves must not survive Clear either
 	for _, kind := range refl.Kinds {
 		pbt.Run(t, pbt.Target[Case]{Name: kind + "/float64", Checks: 150, Gen: genWith(kind, true), Check: check})
+	}
+	// T = any (nil, pointers, errors, mixed dynamic types).  (The uint8 family of C17 is
+	// not used here: encoding/json writes a slice of a uint8-kinded type as a base64
+	// string, so ToJSON of such a list legitimately differs between a nil and an empty
+	// backing slice.)
+	for _, elem := range []string{"any"} {
+		for _, kind := range refl.Kinds {
+			pbt.Run(t, pbt.Target[Case]{Name: kind + "/" + elem, Checks: 60, Gen: genElem(kind, elem), Check: check})
+		}
 	}
 }
